@@ -19,6 +19,7 @@ package requestcontext
 import (
 	"net/http"
 	"net/url"
+	"strings"
 
 	"github.com/dadrus/heimdall/internal/x"
 )
@@ -42,13 +43,13 @@ func extractURL(req *http.Request) *url.URL {
 
 	if val := req.Header.Get("X-Forwarded-Uri"); len(val) != 0 {
 		if forwardedURI, err := url.Parse(val); err == nil {
-			rawPath = forwardedURI.EscapedPath()
+			rawPath = escapedPath(forwardedURI)
 			query = forwardedURI.Query().Encode()
 		}
 	}
 
 	if len(rawPath) == 0 {
-		rawPath = req.URL.EscapedPath()
+		rawPath = escapedPath(req.URL)
 	}
 
 	if len(query) == 0 {
@@ -63,5 +64,51 @@ func extractURL(req *http.Request) *url.URL {
 		Path:     path,
 		RawPath:  rawPath,
 		RawQuery: query,
+	}
+}
+
+// escapedPath returns the escaped form of the path of the given URL keeping the escaping used by
+// the client. Compared to that, url.URL.EscapedPath() discards the received form (and by that e.g.
+// decodes encoded slashes), if it contains characters, which are not expected to appear unescaped.
+// Here, only these characters are escaped.
+func escapedPath(u *url.URL) string {
+	escaped := u.EscapedPath()
+	if len(u.RawPath) == 0 || escaped == u.RawPath {
+		return escaped
+	}
+
+	const upperHex = "0123456789ABCDEF"
+
+	var builder strings.Builder
+
+	for i := 0; i < len(u.RawPath); i++ {
+		char := u.RawPath[i]
+
+		switch {
+		case char == '%' && i+2 < len(u.RawPath) && isHex(u.RawPath[i+1]) && isHex(u.RawPath[i+2]):
+			builder.WriteString(u.RawPath[i : i+3])
+			i += 2
+		case char == '%' || !isAllowedInPath(char):
+			builder.WriteByte('%')
+			builder.WriteByte(upperHex[char>>4])  //nolint:mnd
+			builder.WriteByte(upperHex[char&0xf]) //nolint:mnd
+		default:
+			builder.WriteByte(char)
+		}
+	}
+
+	return builder.String()
+}
+
+func isHex(char byte) bool {
+	return ('0' <= char && char <= '9') || ('a' <= char && char <= 'f') || ('A' <= char && char <= 'F')
+}
+
+func isAllowedInPath(char byte) bool {
+	switch {
+	case 'a' <= char && char <= 'z', 'A' <= char && char <= 'Z', '0' <= char && char <= '9':
+		return true
+	default:
+		return strings.IndexByte("-._~!$&'()*+,;=:@[]/", char) >= 0
 	}
 }
